@@ -33,6 +33,13 @@ def canon_state(s):
                        "mergeLog": list(s["mergeLog"]), "bad": s["bad"]}, sort_keys=True)
 
 
+def decanon(x):
+    d = json.loads(x)
+    d["pc"] = [{"k": p[0], "o": p[1], "i": p[2]} for p in d["pc"]]
+    d["sem"] = dict(d["sem"])
+    return d
+
+
 def cfg_key(c):
     return (c["nw"], c["k"], c["b"], c["ord"])
 
@@ -54,11 +61,67 @@ def run(ctx):
     vlib.tlc_must_hold(res, "ThreadedFrames invariants + termination")
     ctx.add_tlc(cfg, res)
 
+    drift = []
+
+    def note_drift(kind, cfgd, text):
+        """code and protocol spec disagree, but no property predicate failed on the observed states"""
+        if len(drift) < 20:
+            drift.append({"kind": kind, "cfg": cfgd, "what": text[:400]})
+        vlib.log("SPEC-DRIFT (%s, not a property violation): %s" % (kind, text[:300]))
+
+    obs_seq = [0]
+
+    def obs_check(records, where):
+        """records: list of {"c": cfg, "s": projected state}.  TLC evaluates the property predicates of the spec
+        on every observed state (spec/threaded_frames/ObsTF.tla).  Returns True if all hold."""
+        if not records:
+            return True
+        obs_seq[0] += 1
+        path = vlib.scratch_file("tf-obs-%d.ndjson" % obs_seq[0])
+        recs = list(records)
+        ok = True
+        for _ in range(6):          # report up to a few distinct violated predicates
+            vlib.write_ndjson(path, recs)
+            r = vlib.tlc("threaded_frames", "ObsTF", cfg="ObsTF.cfg", workers=1, env={"TRACE": path}, timeout=900)
+            if r.ok:
+                ctx.add_tlc("ObsTF(%s)" % where, r)
+                break
+            ok = False
+            inv = "property"
+            m = __import__("re").search(r"Invariant (\w+) is violated", r.out)
+            if m:
+                inv = m.group(1)
+            m = __import__("re").search(r"idx = (\d+)", r.out)
+            bad = recs[int(m.group(1)) - 1] if m else recs[0]
+            tag = "ordered" if bad["c"]["ord"] else "unordered"
+            ctx.violation("dispatcher:%s:%s" % (tag, inv), "%s is false in a state reached by the real code (%s)" % (inv, where), bad)
+            # drop every record of that configuration and look for other predicates/configurations
+            recs = [x for x in recs if x["c"] != bad["c"]]
+            if not recs:
+                break
+        os.unlink(path)
+        return ok
+
+    def states_of(run):
+        b = run["begin"]
+        cfgd = {"nw": b["nw"], "k": b["k"], "b": b["b"], "ord": b["ord"]}
+        return [{"c": cfgd, "s": st["s"]} for st in run["steps"] if st.get("s")]
+
     def drive(lines, timeout=1200):
-        rc, out, err = vlib.run_driver(exe, "\n".join(lines) + "\n", args=["batch"], timeout=timeout)
-        if rc != 0:
-            raise vlib.InfraError("drv_threaded_frames batch failed rc=%s %s" % (rc, err[-1000:]))
-        return out
+        """run the batch; the driver leaves the process after a deadlock / script mismatch (it reports the run
+        first), so restart it with the remaining lines"""
+        outs = []
+        rest = list(lines)
+        while rest:
+            rc, out, err = vlib.run_driver(exe, "\n".join(rest) + "\n", args=["batch"], timeout=timeout)
+            n = sum(1 for ln in out.splitlines() if ln.startswith('{"e":"end"'))
+            if rc != 0 and n == 0:
+                raise vlib.InfraError("drv_threaded_frames batch failed rc=%s %s" % (rc, err[-1000:]))
+            if n == 0:
+                raise vlib.InfraError("drv_threaded_frames batch produced no run")
+            outs.append(out)
+            rest = rest[n:]
+        return "\n".join(outs)
 
     def split_runs(out):
         runs, cur = [], None
@@ -126,20 +189,15 @@ def run(ctx):
         if not check_end(run, "replay of a TLC schedule"):
             continue
         e = run["end"]
-        if e["mismatch"]:
-            ctx.violation("dispatcher:%s:replay-step-not-enabled" % tag,
-                          "the spec allows a step the real code cannot take: %s" % e["error"], {"cfg": r["c"], "schedule": r["sched"]})
-            continue
-        if e["rc"] != 0 or len(run["steps"]) != len(r["sched"]):
-            ctx.violation("dispatcher:%s:replay-length" % tag, "real run has %d steps, TLC behaviour %d (rc=%s %s)" % (
-                len(run["steps"]), len(r["sched"]), e["rc"], e["error"]), {"cfg": r["c"], "schedule": r["sched"]})
-            continue
-        fin = run["steps"][-1]["s"]
-        exp = (r["evalLog"], r["mergeLog"], r["readSeq"])
-        got = ([list(x) for x in fin["evalLog"]], fin["mergeLog"], fin["readSeq"])
-        if [list(x) for x in exp[0]] != got[0] or list(exp[1]) != got[1] or list(exp[2]) != got[2]:
-            ctx.violation("dispatcher:%s:replay-result" % tag, "eval/merge/read logs %s differ from the spec's %s" % (got, exp),
-                          {"cfg": r["c"], "schedule": r["sched"]})
+        fin = run["steps"][-1]["s"] if run["steps"] else None
+        exp = ([list(x) for x in r["evalLog"]], list(r["mergeLog"]), list(r["readSeq"]))
+        got = ([list(x) for x in fin["evalLog"]], fin["mergeLog"], fin["readSeq"]) if fin else None
+        if e["mismatch"] or e["rc"] != 0 or len(run["steps"]) != len(r["sched"]) or got != exp:
+            # the real code left the TLC behaviour: property violation only if a property predicate fails
+            run2 = dict(run, begin=dict(r["c"]))
+            if obs_check(states_of(run2), "replay of a TLC schedule"):
+                note_drift("replay", r["c"], "real code does not follow TLC schedule %s: %s; logs %s vs spec %s" % (
+                    r["sched"], e["error"], got, exp))
     if sims:
         ctx.sample({"tlc_schedule": {"c": sims[0]["c"], "sched": sims[0]["sched"], "evalLog": sims[0]["evalLog"]}})
 
@@ -197,8 +255,8 @@ def run(ctx):
                 with open(keep, "w") as f:
                     f.write("\n".join(bad["raw"]) + "\n")
                 what = r2.violation or ("trace rejected at line %s of %s" % (maxl2, nlines))
-                ctx.violation("dispatcher:%s:trace-rejected" % tag, "recorded execution is not a behaviour of the spec: %s" % what,
-                              {"cfg": bad["begin"], "schedule": [s["t"] for s in bad["steps"]], "trace": keep})
+                if obs_check(states_of(bad), "random schedule rejected by the protocol spec"):
+                    note_drift("trace-rejected", bad["begin"], what + " schedule " + str([s["t"] for s in bad["steps"]]))
         os.unlink(path)
     if good:
         ctx.sample({"validated_run": {"cfg": good[0]["begin"], "schedule": [s["t"] for s in good[0]["steps"]]}})
@@ -209,6 +267,7 @@ def run(ctx):
     res = vlib.tlc("threaded_frames", "MCTF", cfg=gcfg, timeout=3000, heap="16g", workers=8)
     vlib.tlc_must_hold(res, "graph export")
     ctx.add_tlc(gcfg, res)
+    all_obs = []
     spec_edges = {}
     for r in res.records:
         key = cfg_key(r["from"]["c"])
@@ -246,20 +305,24 @@ def run(ctx):
             continue
         if summary is None or not summary["complete"]:
             raise vlib.InfraError("explore incomplete for %s" % (key,))
+        # every state the real code can reach in this configuration satisfies the property predicates
+        st = {}
+        for (fr, to) in code_edges:
+            st[fr] = 1
+            st[to] = 1
+        all_obs.extend({"c": cfgd, "s": decanon(x)} for x in st)
         extra = code_edges - spec_edges[key]
         missing = spec_edges[key] - code_edges
         if extra:
             fr, to = sorted(extra)[0]
-            ctx.violation("dispatcher:%s:graph-extra-transition" % tag,
-                          "the real code takes %d transitions the spec forbids, e.g. %s -> %s" % (len(extra), fr, to),
-                          {"cfg": cfgd, "from": json.loads(fr), "to": json.loads(to)})
+            note_drift("graph-extra-transition", cfgd, "the real code takes %d transitions the spec does not have, e.g. %s -> %s" % (len(extra), fr, to))
         elif missing:
             fr, to = sorted(missing)[0]
-            ctx.violation("dispatcher:%s:graph-missing-transition" % tag,
-                          "the real code never takes %d transitions the spec allows, e.g. %s -> %s" % (len(missing), fr, to),
-                          {"cfg": cfgd, "from": json.loads(fr), "to": json.loads(to)})
+            note_drift("graph-missing-transition", cfgd, "the real code never takes %d transitions the spec allows, e.g. %s -> %s" % (len(missing), fr, to))
         ctx.extra.setdefault("graphs_compared", []).append({"cfg": cfgd, "edges": len(code_edges), "runs": summary["runs"]})
 
+    obs_check(all_obs, 'exhaustive schedule enumeration of the real code')
+    ctx.extra['observed_states_checked'] = len(all_obs)
     vlib.log('phase 4 (graph) done %.0fs' % (__import__('time').time() - ctx.t0))
     # ---- 5. frame selection prologue (seek loop + budget) through the full Exec ---------------------------------
     res = vlib.tlc("threaded_frames", "MCSeek", cfg="MCSeek.cfg", timeout=300)
@@ -292,4 +355,6 @@ def run(ctx):
                 sorted(got), want, r, nw, e["rc"], e["error"]), {"vector": r, "nw": nw, "ord": ord_})
     if vecs:
         ctx.sample({"seek_vector": vecs[len(vecs) // 2]})
+    if drift:
+        ctx.extra['spec_drift'] = drift
     ctx.exhaustive = False
